@@ -145,6 +145,12 @@ Theorem c15_accepted_config_names_known (m : intervals) root_used routes_used :
   root_used = [] /\ forall names, In names routes_used -> all_known m names.
 Proof. exact (cfg_names_ok_all_known m root_used routes_used). Qed.
 
+(* interval lists are a route's OWN: in the model of dispatch.NewRoute the lists a route works with are the lists
+   configured on it, whatever its ancestors carry; in particular a route configured without lists has none *)
+Theorem c15_route_lists_not_inherited mu ac kids :
+  exists rest, route_lists (RNode mu ac kids) = (mu, ac) :: rest.
+Proof. eexists. reflexivity. Qed.
+
 (* mute stage: alerts pass iff no mute interval contains now; marker := names of the containing intervals *)
 Theorem c15_mute_stage tz m route gkey mute active now :
   all_known m mute ->
